@@ -374,6 +374,7 @@ def _run(ctx, quick, rnd, pool, ex, X, R):
     jobs['vh_mc'] = ex.submit(tlc.dump_states, SPEC, 'VHost', 'MC_VHost.cfg', workers=2)      # checks the invariants too
     jobs['vh_disc'] = ex.submit(tlc.run_tlc, SPEC, 'VHost', 'MC_VHost_discarded.cfg', workers=1)
     jobs['vh_suffix'] = ex.submit(tlc.run_tlc, SPEC, 'VHost', 'MC_VHost_suffixtrust.cfg', workers=1)
+    jobs['vh_nohost'] = ex.submit(tlc.run_tlc, SPEC, 'VHost', 'MC_VHost_nohostfallback.cfg', workers=1)
 
     states = transitions = 0
     cov = {}
@@ -391,6 +392,8 @@ def _run(ctx, quick, rnd, pool, ex, X, R):
     transitions += vh_mc.generated
     if not jobs['vh_disc'].result().violated:
         raise tlc.MachineryError('the "discarded" variant of VHost.tla no longer violates C20: the model lost its teeth')
+    if not jobs['vh_nohost'].result().violated:
+        raise tlc.MachineryError('the "nohostfallback" variant of VHost.tla no longer violates C20: the model lost its teeth')
     if not jobs['vh_suffix'].result().violated:
         raise tlc.MachineryError('the "suffixtrust" variant of VHost.tla no longer violates C20: the model lost its teeth')
     pred_kept = {tuple(st['c']): st['out'][0] for st in vh_states if st['c']}
@@ -417,7 +420,7 @@ def _run(ctx, quick, rnd, pool, ex, X, R):
             rel = {('', ''): 'exact', ('v6', ''): 'v6mapped', ('1', ''): 'gateway_is_suffix', ('', '0'): 'gateway_is_prefix',
                    ('1', '0'): 'gateway_is_substring', ('v6', '0'): 'gateway_is_substring'}[(ln['rpre'], ln['rpost'])]
             ctx.violation(clause, {'part': 'vhost', 'trusted': ln['trusted'], 'remote': ln['remote'], 'address': rel,
-                                   'xfh': ln['xfh'], 'list_consulted': consulted}, {'part': 'vhost', 'case': case, 'line': ln})
+                                   'xfh': ln['xfh'], 'host': ln['host'], 'list_consulted': consulted}, {'part': 'vhost', 'case': case, 'line': ln})
         else:
             vh_ok.append(ln)
         if ln == pred_kept[c]:
